@@ -30,16 +30,25 @@
 #include "pixman-accessor.h"
 
 /*
+ * An edge that is followed beyond its end points can leave the 16.16
+ * range.  Its x position then wraps around, and the clipping against
+ * the image in the rasterizers deals with the result; the addition is
+ * done on unsigned values so that this is well defined.
+ */
+#define EDGE_X_ADD(x, step)						\
+    ((pixman_fixed_t) ((uint32_t) (x) + (uint32_t) (step)))
+
+/*
  * Step across a small sample grid gap
  */
 #define RENDER_EDGE_STEP_SMALL(edge)					\
     {									\
-	edge->x += edge->stepx_small;					\
+	edge->x = EDGE_X_ADD (edge->x, edge->stepx_small);		\
 	edge->e += edge->dx_small;					\
 	if (edge->e > 0)						\
 	{								\
 	    edge->e -= edge->dy;					\
-	    edge->x += edge->signdx;					\
+	    edge->x = EDGE_X_ADD (edge->x, edge->signdx);		\
 	}								\
     }
 
@@ -48,12 +57,12 @@
  */
 #define RENDER_EDGE_STEP_BIG(edge)					\
     {									\
-	edge->x += edge->stepx_big;					\
+	edge->x = EDGE_X_ADD (edge->x, edge->stepx_big);		\
 	edge->e += edge->dx_big;					\
 	if (edge->e > 0)						\
 	{								\
 	    edge->e -= edge->dy;					\
-	    edge->x += edge->signdx;					\
+	    edge->x = EDGE_X_ADD (edge->x, edge->signdx);		\
 	}								\
     }
 
